@@ -838,7 +838,7 @@ macro_rules! len_sweep {
 
 //@harness verif_frost_@S@_lengths_a 180
 {
-    let b: [u8; 3 * NS + 1] = kani::any();
+    let b: [u8; 3 * NS + NE + 1] = kani::any();
     len_sweep!(GroupPrivateKey, b);
     len_sweep!(GroupPublicKey, b);
     len_sweep!(SignatureShare, b);
@@ -856,9 +856,15 @@ macro_rules! len_sweep {
 
 //@harness verif_frost_@S@_lengths_b 180
 {
-    let b: [u8; 2 * NS + NE + 1] = kani::any();
+    let b: [u8; 2 * NS + 2 * NE] = kani::any();
     len_sweep!(SignerPublicKey, b);
     len_sweep!(Signature, b);
+}
+
+//@harness verif_frost_@S@_lengths_c 180
+{
+    // the largest ENC_LEN is NS+2*NE (SEC1 suites) or 2*NS+NE; 2*NS+2*NE >= both + 1
+    let b: [u8; 2 * NS + 2 * NE] = kani::any();
     len_sweep!(Commitment, b);
     len_sweep!(SignerPrivateKeyShare, b);
 }
